@@ -687,7 +687,18 @@ class DocGen:
                 trpr.append(el("w:tblHeader"))
                 self.hit("late-header-row")
             row_children = ([el("w:trPr", [], trpr)] if (trpr or rng.random() < 0.3) else []) + cells
+            # optional profile key p_table_junk (no draw without it): things that are legal inside w:tbl / w:tr but are
+            # neither rows nor cells for the reader (a bookmark start between cells, a paragraph-level run of content) ->
+            # "unexpected non-cell / non-row element" warnings, and the row-span sweep is skipped for that table
+            junk = self.pf.get("p_table_junk", 0)
+            if junk and rng.random() < junk:
+                k = rng.randint(0, len(row_children))
+                row_children = row_children[:k] + [self.table_junk(depth)] + row_children[k:]
+                self.hit("non-cell-in-row")
             rows.append(el("w:tr", [], row_children))
+            if junk and rng.random() < junk / 2:
+                rows.append(self.table_junk(depth))
+                self.hit("non-row-in-table")
         tblpr = []
         if self.p("p_tstyle"):
             if self.p("p_dangling_style"):
@@ -711,6 +722,18 @@ class DocGen:
         if n_head:
             self.hit("header-rows")
         return el("w:tbl", [], ch + rows)
+
+    def table_junk(self, depth):
+        """an element that the reader turns into something that is neither a row nor a cell"""
+        rng = self.rng
+        k = rng.random()
+        if k < 0.45:
+            name = "bm" + self.fresh("j")
+            self.bookmarks.append(name)
+            return el("w:bookmarkStart", [("w:id", self.fresh("b")), ("w:name", name)])
+        if k < 0.8:
+            return self.paragraph(depth + 2, allow_deleted=False)
+        return el("w:r", [], [el("w:t", [], [self.text(4, allow_empty=False)])])
 
     def block(self, depth):
         return self.blocks(depth, 1)[0]
